@@ -1,5 +1,6 @@
 //@@ include contracts/inc_shard_header.rs
 //@@ include contracts/inc_value_units.rs
+//@@ include prelude/hash_iter.rs
 verus! {
 spec fn set_at(s: SV, key: Vec<u8>) -> Option<Set<Vec<u8>>> {
     if s.data.contains_key(key) { match s.data[key].value { Value::Set(m) => Some(m@), _ => None } } else { None }
@@ -93,7 +94,115 @@ impl StorageEngine {
             set_at(eff(*old(shard_guard), key_of(key@)), key_of(key@)) matches Some(m) ==> r == Ok::<bool, FerrousError>(m.contains(key_of(member@))),
 //@@ body
 //@@ end
+
+// ---- SDIFF / SUNION / SINTER, one operand (the body of the per-key loop): the operand is read through the lazy purge, so a set whose
+// deadline has passed counts as absent (C02: never observable, also as the 2nd..n-th operand of a multi-key read); another type refuses;
+// the accumulated result changes by exactly the operand's members; the shard is otherwise untouched. `keys[k].as_ref()` on the generic
+// `T: AsRef<[u8]>` is taken at T = Vec<u8> (RT to as_slice: the trait method has no specification)
+//@@ unit sdiff_operand_step loopbody src/storage/engine.rs StorageEngine::sdiff "for k in 1..keys.len()"
+//@@   rewrite R2
+//@@   rewrite RT "keys[k].as_ref()" "keys[k].as_slice()"
+//@@   rewrite RFOR 0 it
+//@@   tail Ok(Vec::new())
+//@@   loop 0
+//@@|     invariant
+//@@|         it.seq().no_duplicates(), it.seq().len() == set@.len(),
+//@@|         forall|i: int| 0 <= i < it.seq().len() ==> set@.contains(*(#[trigger] it.seq()[i])),
+//@@|         forall|m: Vec<u8>| #[trigger] set@.contains(m) ==> exists|i: int| 0 <= i < it.seq().len() && *(#[trigger] it.seq()[i]) == m,
+//@@|         it.history@ =~= it.seq().take(it.index@),
+//@@|         forall|m: Vec<u8>| #[trigger] result@.contains(m) <==> (old(result)@.contains(m) && !(exists|j: int| 0 <= j < it.index@ && *(#[trigger] it.seq()[j]) == m)),
+//@@|     ensures it.index@ == it.seq().len(),
+    fn sdiff_operand_step(&self, shard_guard: &mut DatabaseShard, keys: &[Vec<u8>], k: usize, result: &mut HashSet<Vec<u8>>) -> (r: Result<Vec<Vec<u8>>>)
+        requires 1 <= k < keys@.len(),
+        ensures
+            unchanged(eff(*old(shard_guard), keys@[k as int]), sv(*final(shard_guard))),
+            holds_non_set(eff(*old(shard_guard), keys@[k as int]), keys@[k as int]) ==> r is Err,
+            !eff(*old(shard_guard), keys@[k as int]).data.contains_key(keys@[k as int]) ==> r is Ok && final(result)@ == old(result)@,
+            set_at(eff(*old(shard_guard), keys@[k as int]), keys@[k as int]) matches Some(m) ==> r is Ok && final(result)@ =~= old(result)@.difference(m),
+//@@ body
+//@@ end
+
+// the base operand (first key) of SDIFF and SINTER: its members, read through the lazy purge; absent (or past its deadline) answers empty at once
+//@@ unit sdiff_base_step stmts src/storage/engine.rs StorageEngine::sdiff "let first_key" upto "drop(shard_guard)"
+//@@   opt same-return-type
+//@@   rewrite R2
+//@@   rewrite RT "keys[0].as_ref()" "keys[0].as_slice()"
+//@@   rewrite RXPR "set.iter().cloned().collect()" "verif_clone_set(set)"
+//@@   rewrite RT "return Ok(Vec::new());" "{ proof { *early = Ghost(true); } return Ok(Vec::new()); }"
+//@@   tail *out = result; Ok(Vec::new())
+    fn sdiff_base_step(&self, shard_guard: &mut DatabaseShard, keys: &[Vec<u8>], out: &mut HashSet<Vec<u8>>, early: &mut Ghost<bool>) -> (r: Result<Vec<Vec<u8>>>)
+        requires keys@.len() >= 1, !old(early)@,
+        ensures
+            unchanged(eff(*old(shard_guard), keys@[0]), sv(*final(shard_guard))),
+            holds_non_set(eff(*old(shard_guard), keys@[0]), keys@[0]) ==> r is Err,
+            !eff(*old(shard_guard), keys@[0]).data.contains_key(keys@[0]) ==> (r matches Ok(v) && v@.len() == 0) && final(early)@,
+            set_at(eff(*old(shard_guard), keys@[0]), keys@[0]) matches Some(m) ==> r is Ok && !final(early)@ && final(out)@ == m,
+//@@ body
+//@@ end
+//@@ unit sinter_base_step stmts src/storage/engine.rs StorageEngine::sinter "let first_key" upto "drop(shard_guard)"
+//@@   opt same-return-type
+//@@   rewrite R2
+//@@   rewrite RT "keys[0].as_ref()" "keys[0].as_slice()"
+//@@   rewrite RXPR "set.iter().cloned().collect()" "verif_clone_set(set)"
+//@@   rewrite RT "return Ok(Vec::new());" "{ proof { *early = Ghost(true); } return Ok(Vec::new()); }"
+//@@   tail *out = result; Ok(Vec::new())
+    fn sinter_base_step(&self, shard_guard: &mut DatabaseShard, keys: &[Vec<u8>], out: &mut HashSet<Vec<u8>>, early: &mut Ghost<bool>) -> (r: Result<Vec<Vec<u8>>>)
+        requires keys@.len() >= 1, !old(early)@,
+        ensures
+            unchanged(eff(*old(shard_guard), keys@[0]), sv(*final(shard_guard))),
+            holds_non_set(eff(*old(shard_guard), keys@[0]), keys@[0]) ==> r is Err,
+            !eff(*old(shard_guard), keys@[0]).data.contains_key(keys@[0]) ==> (r matches Ok(v) && v@.len() == 0) && final(early)@,
+            set_at(eff(*old(shard_guard), keys@[0]), keys@[0]) matches Some(m) ==> r is Ok && !final(early)@ && final(out)@ == m,
+//@@ body
+//@@ end
+
+//@@ unit sunion_operand_step loopbody src/storage/engine.rs StorageEngine::sunion "for key_ref in keys"
+//@@   rewrite R2
+//@@   rewrite RT "key_ref.as_ref()" "key_ref.as_slice()"
+//@@   rewrite RFOR 0 it
+//@@   tail Ok(Vec::new())
+//@@   loop 0
+//@@|     invariant
+//@@|         it.seq().no_duplicates(), it.seq().len() == set@.len(),
+//@@|         forall|i: int| 0 <= i < it.seq().len() ==> set@.contains(*(#[trigger] it.seq()[i])),
+//@@|         forall|m: Vec<u8>| #[trigger] set@.contains(m) ==> exists|i: int| 0 <= i < it.seq().len() && *(#[trigger] it.seq()[i]) == m,
+//@@|         it.history@ =~= it.seq().take(it.index@),
+//@@|         forall|m: Vec<u8>| #[trigger] result@.contains(m) <==> (old(result)@.contains(m) || (exists|j: int| 0 <= j < it.index@ && *(#[trigger] it.seq()[j]) == m)),
+//@@|     ensures it.index@ == it.seq().len(),
+    fn sunion_operand_step(&self, shard_guard: &mut DatabaseShard, key_ref: &Vec<u8>, result: &mut HashSet<Vec<u8>>) -> (r: Result<Vec<Vec<u8>>>)
+        ensures
+            unchanged(eff(*old(shard_guard), *key_ref), sv(*final(shard_guard))),
+            holds_non_set(eff(*old(shard_guard), *key_ref), *key_ref) ==> r is Err,
+            !eff(*old(shard_guard), *key_ref).data.contains_key(*key_ref) ==> r is Ok && final(result)@ == old(result)@,
+            set_at(eff(*old(shard_guard), *key_ref), *key_ref) matches Some(m) ==> r is Ok && final(result)@ =~= old(result)@.union(m),
+//@@ body
+//@@ end
+
+//@@ unit sinter_operand_step loopbody src/storage/engine.rs StorageEngine::sinter "for k in 1..keys.len()"
+//@@   rewrite R2
+//@@   rewrite RT "keys[k].as_ref()" "keys[k].as_slice()"
+//@@   rewrite RXPR "result.retain(|member| set.contains(member))" "verif_retain_in(result, set)"
+//@@   rewrite RT "return Ok(Vec::new());" "{ proof { *early = Ghost(true); } return Ok(Vec::new()); }"
+//@@   tail Ok(Vec::new())
+    fn sinter_operand_step(&self, shard_guard: &mut DatabaseShard, keys: &[Vec<u8>], k: usize, result: &mut HashSet<Vec<u8>>, early: &mut Ghost<bool>) -> (r: Result<Vec<Vec<u8>>>)
+        requires 1 <= k < keys@.len(), !old(early)@,
+        ensures
+            unchanged(eff(*old(shard_guard), keys@[k as int]), sv(*final(shard_guard))),
+            holds_non_set(eff(*old(shard_guard), keys@[k as int]), keys@[k as int]) ==> r is Err,
+            // an absent operand — also one whose deadline has passed (C02) — makes the whole intersection empty: the command answers at once
+            !eff(*old(shard_guard), keys@[k as int]).data.contains_key(keys@[k as int]) ==> (r matches Ok(v) && v@.len() == 0) && final(early)@,
+            set_at(eff(*old(shard_guard), keys@[k as int]), keys@[k as int]) matches Some(m) ==> r is Ok && !final(early)@ && final(result)@ =~= old(result)@.intersect(m),
+//@@ body
+//@@ end
 }
+/// `set.iter().cloned().collect()` into a HashSet (RXPR site): a copy of the set
+#[verifier::external_body]
+pub fn verif_clone_set(set: &HashSet<Vec<u8>>) -> (r: HashSet<Vec<u8>>) ensures r@ == set@, { unimplemented!() }
+/// `result.retain(|member| set.contains(member))` (RXPR site; HashSet::retain with a closure has no vstd specification): keeps exactly the members that are in `set`
+#[verifier::external_body]
+pub fn verif_retain_in(result: &mut HashSet<Vec<u8>>, set: &HashSet<Vec<u8>>)
+    ensures final(result)@ == old(result)@.intersect(set@),
+{ unimplemented!() }
 
 } // verus!
 fn main() {}
